@@ -486,6 +486,7 @@ int dns_decode(char *buf, size_t buflen, struct query *q, qr_t qr, char *packet,
 			readlong(packet, &data, &ttl);
 			readshort(packet, &data, &rlen);
 
+			CHECKLEN(rlen);
 			rv = MIN(rlen, sizeof(rdata));
 			rv = readdata(packet, &data, rdata, rv);
 			if (rv >= 2 && buf) {
@@ -516,6 +517,7 @@ int dns_decode(char *buf, size_t buflen, struct query *q, qr_t qr, char *packet,
 			if (type == T_A) {
 				/* Answer type A includes only 4 bytes.
 				   Not used for tunneling. */
+				CHECKLEN(rlen);
 				rv = MIN(rlen, sizeof(rdata));
 				rv = readdata(packet, &data, rdata, rv);
 				if (rv >= 2 && buf) {
@@ -596,6 +598,7 @@ int dns_decode(char *buf, size_t buflen, struct query *q, qr_t qr, char *packet,
 			readlong(packet, &data, &ttl);
 			readshort(packet, &data, &rlen);
 
+			CHECKLEN(rlen);
 			rv = readtxtbin(packet, &data, rlen, rdata,
 				        sizeof(rdata));
 			if (rv >= 1) {
